@@ -29,6 +29,9 @@ func (g *deepcopyGen) GenerateType(c gengo.Context, named *types.Named) error {
 }
 
 func (g *deepcopyGen) generateType(c gengo.Context, named *types.Named) error {
+	// a field of type G[int] depends on the generic type G itself
+	named = named.Origin()
+
 	if _, ok := g.processed[named]; ok {
 		return nil
 	}
